@@ -225,7 +225,7 @@ async def _run_script(ctx, inv, ev, script):
                 v = await e.event_result(**kwargs)
                 ctx.rec('ACC', ev=label, kw=str(kwargs), outcome='return', val=repr(v)[:40])
             except BaseException as ex:  # noqa
-                ctx.rec('ACC', ev=label, kw=str(kwargs), outcome='raise', exc_id=id(ex), exc_type=type(ex).__name__)
+                ctx.rec('ACC', ev=label, kw=str(kwargs), outcome='raise', exc_type=type(ex).__name__)
                 ctx.acc_raised = getattr(ctx, 'acc_raised', []) + [(label, str(kwargs), ex)]
         else:
             raise AssertionError(f'unknown step {op}')
